@@ -13,7 +13,7 @@ for pid in props:
     checks.append({
         "property_id": pid,
         "quick_cmd": f"bin/govc check {pid} --tier quick" + (f" --timeout {c['timeout']}" if c.get('timeout') else ""),
-        "thorough_cmd": f"bin/govc check {pid} --tier thorough",
+        "thorough_cmd": f"tools/thorough.sh {pid}" + (f" --timeout {max(c['timeout'], 60)}" if c.get('timeout') else ""),
         "evidence_file": f"evidence/{pid}.json",
         "replay_cmd_template": "bin/govc replay {path}",
         "engine": "govc",
